@@ -554,6 +554,7 @@ def atomic_stage(chk):
     pool.shutdown()
 
     listing, lmeta, base_terms, base_meta = [], [], [], []
+    ren_terms, ren_meta = [], []
 
     def g_files(d, snap):
         return g_list([f"({g_bytes(d + b'/' + k)}, {g_bytes(v)})" for k, v in sorted(snap.items())])
@@ -612,6 +613,15 @@ def atomic_stage(chk):
             new = b["snapshot"].get(tgt[len(d) + 1:], b"")
             base_terms.append(f"({ft.g_kops(b['trace']['ops'])}, {g_files(d, files)}, {g_bytes(tgt)}, {g_bytes(new)})")
             base_meta.append((sc, b["trace"]))
+        else:
+            d = b["dir"]
+            orig = d + b"/" + sc.target()
+            suffix = os.fsdecode(sc.target())[os.fsdecode(sc.target()).rfind("."):]
+            newp = d + b"/" + os.fsencode(sc.name.strip().replace("/", "|") + suffix)
+            files = {os.fsencode(k): v for k, v in sc.files.items()}
+            new = b["snapshot"].get(newp[len(d) + 1:], b"")
+            ren_terms.append(f"({ft.g_kops(b['trace']['ops'])}, {g_files(d, files)}, {g_bytes(orig)}, {g_bytes(newp)}, {g_bytes(new)})")
+            ren_meta.append((sc, b["trace"]))
 
     for (si, what, ai), r in zip(jobs, results):
         sc, b = scen[si], bases[si]
@@ -652,9 +662,34 @@ def atomic_stage(chk):
                   "  match first_bad_from (init_files files) ops t (old_of t files) new 0 with Some k => k | None => -1 end.\n"
                 + "Definition shape (c : list kop * list (path * bytes) * path * bytes) : bool :=\n"
                   "  let '(ops, files, t, new) := c in protocol_shape_b ops t && bytes_eqb (shape_new ops) new.\n"
-                + "Eval vm_compute in map bad bases.\nEval vm_compute in mismatches shape bases.\n")
+                + "Definition plbad (c : list kop * list (path * bytes) * path * bytes) : Z :=\n"
+                  "  let '(ops, files, t, new) := c in\n"
+                  "  match pl_first_bad_from (dinit_files files) ops t (old_of t files) new 0 with Some k => k | None => -1 end.\n"
+                + "Definition rens : list (list kop * list (path * bytes) * path * path * bytes) :=\n " + g_list(ren_terms) + ".\n"
+                + "Definition renbad (c : list kop * list (path * bytes) * path * path * bytes) : Z :=\n"
+                  "  let '(ops, files, orig, newp, new) := c in\n"
+                  "  match save_rename_first_bad (init_files files) (init_files files) ops orig newp new 0 with Some k => k | None => -1 end.\n"
+                + "Eval vm_compute in map bad bases.\nEval vm_compute in mismatches shape bases.\n"
+                + "Eval vm_compute in map plbad bases.\nEval vm_compute in map renbad rens.\n")
         rc, out = chk.coq_eval(text, "c19_base")
         lists = vlib.parse_all_lists(out)
+        if rc == 0 and len(lists) == 4:
+            for (sc, tr), k in zip(base_meta, lists[2]):
+                if k >= 0:
+                    chk.monitor_failure("powerloss_old_or_new", {"call": sc.action, "bad_after": tr["ops"][k - 1][0] if k else "start"},
+                                        f"power loss after call #{k} of {sc.label}: the playlist would hold data that was never fsynced",
+                                        {**sc.key(), "trace": ft.describe(tr["ops"])})
+            for (sc, tr), k in zip(ren_meta, lists[3]):
+                chk.count(1)
+                chk.dist("atomic:rename-trace")
+                if k >= 0:
+                    chk.monitor_failure("trace_save_rename_atomic", {"call": sc.action, "bad_after": tr["ops"][k - 1][0] if k else "start"},
+                                        f"renaming save {sc.label}: after call #{k} neither (old, old), (new under the old name) nor "
+                                        "(new under the new name, old name gone) holds",
+                                        {**sc.key(), "trace": ft.describe(tr["ops"])})
+            lists = lists[:2]
+        else:
+            lists = []
         if rc != 0 or len(lists) != 2:
             chk.corr_failure("protocol_shape", {"coq": "evaluation failed"}, out[-1500:])
             chk.obligation("corr:protocol_shape", "correspondence", False)
@@ -684,7 +719,7 @@ def run(chk):
     chk.assumptions = [
         "text codecs, fsencode/fsdecode, urllib quote/unquote/urlsplit are oracles (uri<->path round trip is monitored)",
         "names without NUL and lone surrogates; one component file names (sub-directories and '..' are C16)",
-        "crash = death of the process; power loss not modelled",
+        "two crash models: death of the process (real SIGKILLs) and power loss as journalling abstraction (model-side on the real traces)",
     ]
     import logging
     logging.disable(logging.CRITICAL)
